@@ -138,6 +138,8 @@ def eval_str(case):
         f.append(("from_str_raises_%s_on_%s" % (type(e).__name__, cls), f"{s!r}: {e!r}"))
     classes = ["str", "str_" + cls] + (["str_stdlib_form"] if std is not None else [])
     nt = cls != "valid_short" or True
+    if case.get("kind") == "padded":
+        classes.append("str_valid_plus_junk_char")
     if std is None and cls.startswith("len_") and case.get("kind") == "text":
         nt = len(s) in (21, 23) or len(s) == 0
     return Outcome(nt, classes, f, key=("s", s), evals=2)
@@ -198,6 +200,10 @@ def st_str():
                       canon.map(lambda u: u.urn), canon.map(lambda u: str(u).upper()),
                       canon.map(lambda u: str(u)[:-1]), canon.map(lambda u: u.hex[:22]))
     text = st.text(max_size=40) | st.text(alphabet=ALPHA + "0O", min_size=20, max_size=24)
+    junk = st.sampled_from(["\n", "\r", "\r\n", " ", "\t", "\x00", "\x0b", "\x0c", "\x1c", "\x85", "\u2028", "\u00a0"]) | \
+        st.sampled_from(FOREIGN)
+    padded = st.builds(lambda s, j, where: s + j if where == 0 else j + s if where == 1 else j + s + j,
+                       valid, junk, st.integers(0, 2))
     return st.one_of(
         valid.map(lambda s: {"s": s, "kind": "valid"}),
         foreign.map(lambda s: {"s": s, "kind": "foreign"}),
@@ -206,6 +212,7 @@ def st_str():
         wrong_len.map(lambda s: {"s": s, "kind": "wrong_len"}),
         forms.map(lambda s: {"s": s, "kind": "form"}),
         text.map(lambda s: {"s": s, "kind": "text"}),
+        padded.map(lambda s: {"s": s, "kind": "padded"}),
     )
 
 
@@ -216,6 +223,9 @@ def foreign_everywhere():
             yield {"s": base[:pos] + ch + base[pos + 1:], "kind": "foreign"}
     for n in range(0, 41):
         yield {"s": (base * 2)[:n], "kind": "wrong_len"}
+    for ch in list(FOREIGN) + ["\n", "\r", "\r\n", "\x00", "\x0b", "\x0c", "\x1c", "\x85", "\u2028"]:
+        for s in (base + ch, ch + base, ch + base + ch, base[:21] + ch):
+            yield {"s": s, "kind": "padded"}
 
 
 def parts(tier):
